@@ -566,8 +566,11 @@ assign_int_float(To& to, const From from, Rounding_Dir dir) {
              (from < Extended_Int<To_Policy, To>::min))) {
     return set_neg_overflow_int<To_Policy>(to, dir);
   }
+  // The conversion of max to From can round it up to max + 1 = 2^k:
+  // that value is tested separately (2^k is exactly representable).
   if (CHECK_P(To_Policy::check_overflow,
-             (from > Extended_Int<To_Policy, To>::max))) {
+             (from > Extended_Int<To_Policy, To>::max
+              || from >= 2 * static_cast<From>(C_Integer<To>::max / 2 + 1)))) {
     return set_pos_overflow_int<To_Policy>(to, dir);
   }
 #endif
